@@ -71,6 +71,10 @@ Section Push.
       rewrite <- EB in *. rewrite EB in WB. pose proof (li_chain _ _ _ L) as CH. rewrite EB in CH.
       rewrite EB in Iq. pose proof (chainlist_gen r t WB CH q Iq). rewrite Eq in H0. lia.
     - (* offered *)
+      assert (US : unsendable false bA = false).
+      { unfold unsendable. cbn [negb andb]. apply N.eqb_neq.
+        destruct (li_boA _ _ _ L ca bA (lookup_in _ _ _ LB)). assumption. }
+      rewrite US.
       unfold put_existing. cbn [split_known]. rewrite Cb.
       destruct (split_known (ptree B) rest) as [n p] eqn:SK.
       assert (SK' : split_known (ptree B) (ca :: rest) = (ca :: n, p)) by (cbn [split_known]; rewrite Cb, SK; reflexivity).
